@@ -345,17 +345,17 @@ def run(run):
         E = effects.Effects(F)
         run.count('fact units')
         run.count('functions', len(F.fns))
-        check_origins(run, F, E)
-        check_accessors(run, F, E)
-        check_roles(run, F, E)
-        check_is_active(run, F)
-        check_request_origin(run, F, E)
+        run.guard('check origins', check_origins, run, F, E)
+        run.guard('check accessors', check_accessors, run, F, E)
+        run.guard('check roles', check_roles, run, F, E)
+        run.guard('check is active', check_is_active, run, F)
+        run.guard('check request origin', check_request_origin, run, F, E)
         facts.drop(F)
         cfgmod.clear_cache()
     # the same facts on the interpreted program (independent of how the guard step is decomposed into functions): every guard round
     # shows the request under evaluation as pending and a whole copy of it; controls are bound to the instance core
     from rules import flow_rules
-    flow_rules.flow_obligations(run, {'C06.b', 'C03.b', 'C07.c'})
+    run.guard('flow obligations', flow_rules.flow_obligations, run, {'C06.b', 'C03.b', 'C07.c'})
     run.relabel('C03.b', 'C06.c')
     run.relabel('C07.c', 'C06.c')
     run.floor('C06.a', 100)
